@@ -243,7 +243,7 @@ pub struct VarCase {
     pub checksum: bool,
 }
 
-pub const VARIANTS: [&str; 8] = [
+pub const VARIANTS: [&str; 10] = [
     "crlf",
     "blank-line-with-space-tab",
     "leading-text",
@@ -252,6 +252,8 @@ pub const VARIANTS: [&str; 8] = [
     "crlf+leading+trailing",
     "blank-line-crlf-with-space",
     "leading-text-crlf",
+    "blank-line-with-tab",
+    "empty-line-after-checksum",
 ];
 
 fn variant_text(c: &VarCase) -> (Vec<u8>, Vec<u8>, BTreeMap<String, Vec<String>>) {
@@ -292,7 +294,15 @@ fn variant_text(c: &VarCase) -> (Vec<u8>, Vec<u8>, BTreeMap<String, Vec<String>>
         }
         5 => [&b"junk\r\n"[..], &base(b"\r\n"), b"\r\n"].concat(),
         6 => blank_with(b"\r\n", b" "),
-        _ => [&b"leading\r\nlines\r\n"[..], &base(b"\r\n")].concat(),
+        7 => [&b"leading\r\nlines\r\n"[..], &base(b"\r\n")].concat(),
+        8 => blank_with(b"\n", b"\t"),
+        _ => {
+            // an empty line between the checksum (or the last body line) and the END line
+            let t = base(b"\n");
+            let marker = b"-----END";
+            let p = t.windows(marker.len()).rposition(|w| w == marker).unwrap_or(t.len());
+            [&t[..p], b"\n", &t[p..]].concat()
+        }
     };
     (text, data, to_map(hdrs))
 }
@@ -300,6 +310,21 @@ fn variant_text(c: &VarCase) -> (Vec<u8>, Vec<u8>, BTreeMap<String, Vec<String>>
 fn run_variant(c: &VarCase) -> Outcome {
     let (text, data, map) = variant_text(c);
     let name = VARIANTS[c.variant as usize];
+    if c.variant == 9 {
+        // not a layout the format spells out: demanded is only that the verdict does not depend
+        // on the data length (the reference length is 5)
+        let (ref_text, ref_data, _) = variant_text(&VarCase { len: 5, ..c.clone() });
+        let reference = dearmor_all(&ref_text, DearmorOptions::new()).map(|r| r.0 == ref_data);
+        let here = dearmor_all(&text, DearmorOptions::new()).map(|r| r.0 == data);
+        return match (reference, here) {
+            (Ok(true), Ok(true)) => Outcome::ok(format!("{name}:accepted-at-every-length")),
+            (Err(_), Err(_)) => Outcome::ok(format!("{name}:rejected-at-every-length")),
+            (r, h) => Outcome::bad(
+                format!("C10:variant:{name}:verdict-depends-on-length"),
+                format!("len {} hdr {} checksum {}: {:?}, at length 5: {:?}", c.len, c.hdr, c.checksum, h.map_err(|e| e.to_string()), r.map_err(|e| e.to_string())),
+            ),
+        };
+    }
     match dearmor_all(&text, DearmorOptions::new()) {
         Ok((out, typ, headers, checksum, _)) => {
             let mut o = Outcome::ok(format!("{name}:same-result"));
@@ -452,6 +477,9 @@ pub struct SchedCase {
     /// text (incl. a blank line and dashes short of five) in front of the armor header line
     #[serde(default)]
     pub lead: bool,
+    /// content of the blank line that ends the headers: 0 empty, 1 one blank, 2 a TAB, 3 blank TAB blank
+    #[serde(default)]
+    pub sep: u8,
 }
 
 fn sched_headers(hdr: u8) -> Vec<(String, String)> {
@@ -478,7 +506,16 @@ fn run_sched(c: &SchedCase) -> Outcome {
     let data = pattern(c.len, 2);
     let hdrs = &sched_headers(c.hdr);
     let eol: &[u8] = if c.crlf { b"\r\n" } else { b"\n" };
-    let armored = model::armor("PGP MESSAGE", &map_order(hdrs), &data, true, eol);
+    let mut armored = model::armor("PGP MESSAGE", &map_order(hdrs), &data, true, eol);
+    if c.sep != 0 {
+        // the first empty line is the header / body separator
+        let ws: &[u8] = [&b" "[..], b"\t", b" \t "][(c.sep - 1) as usize % 3];
+        let double = [eol, eol].concat();
+        if let Some(p) = armored.windows(double.len()).position(|w| w == double) {
+            let at = p + eol.len();
+            armored.splice(at..at, ws.iter().copied());
+        }
+    }
     let text = Arc::new(if c.lead { [&b"some text\n\n-- not yet ----\n"[..], &armored[..]].concat() } else { armored });
     let want_headers = to_map(hdrs);
     let horizon = 8 * text.len() + 256;
@@ -645,7 +682,7 @@ pub fn check(ctx: &Ctx) {
 
     let mut vc = Vec::new();
     let vlens: Vec<usize> = if ctx.tier == crate::engine::Tier::Quick {
-        (0..=200).chain([767, 768, 769, 1023, 1024, 1025, 2000]).collect()
+        (0..=200).chain(755..=775).chain(1525..=1540).chain([1023, 1024, 1025, 2000]).collect()
     } else {
         (0..=2100).collect()
     };
@@ -665,7 +702,7 @@ pub fn check(ctx: &Ctx) {
     ctx.run_space(
         "reader_variants",
         true,
-        "model-armored text in 8 tolerated layouts (CRLF, whitespace-only separator line, leading text, trailing newlines, no final newline, combinations) x lengths x 6 header sets x checksum present/absent -> same (data, type, headers)",
+        "model-armored text in 9 tolerated layouts (CRLF, whitespace-only separator line with blanks / a TAB, leading text, trailing newlines, no final newline, combinations) and with an empty line in front of the END line (verdict must not depend on the length) x lengths x 6 header sets x checksum present/absent -> same (data, type, headers)",
         vc.into_par_iter(),
         run_variant,
     );
@@ -703,13 +740,13 @@ pub fn check(ctx: &Ctx) {
     } else {
         &[0, 1, 2, 3, 4, 5, 46, 47, 48, 49, 50, 95, 96, 97, 143, 144, 145, 767, 768, 769, 770, 1536, 1600, 4000]
     };
-    let layouts: Vec<(u8, bool)> = if quick {
-        vec![(0, false), (1, false), (2, true), (3, false)]
+    let layouts: Vec<(u8, bool, u8)> = if quick {
+        vec![(0, false, 0), (1, false, 2), (2, true, 1), (3, false, 3)]
     } else {
-        (0..5u8).flat_map(|h| [(h, false), (h, true)]).collect()
+        (0..5u8).flat_map(|h| [(h, false, 0), (h, true, 0), (h, false, 1), (h, false, 2), (h, true, 3)]).collect()
     };
     for &len in slens {
-      for &(hdr, lead) in &layouts {
+      for &(hdr, lead, sep) in &layouts {
         // the layouts other than the default one on the short bodies
         if hdr != 0 && len > if quick { 49 } else { 145 } {
             continue;
@@ -736,6 +773,7 @@ pub fn check(ctx: &Ctx) {
                             stateful: false,
                             hdr,
                             lead,
+                            sep,
                         });
                     }
                     // deviation bounded (every single deviation incl. a source fault at every call)
@@ -756,6 +794,7 @@ pub fn check(ctx: &Ctx) {
                             stateful: false,
                             hdr,
                             lead,
+                            sep,
                         });
                     }
                 }
@@ -766,7 +805,7 @@ pub fn check(ctx: &Ctx) {
     ctx.run_space(
         "read_schedules",
         true,
-        "E1: Dearmor<BufReader(cap) over scripted source> for 5 header layouts (none, two, repeated / empty / colon-carrying values, forty lines, one long value) with and without leading text in front of the armor: uniform 1/2/3/7-byte sources, all executions with <=1 (thorough: <=2 for short inputs) deviation from the default answer incl. an injected source error at every call, oracle: same (data,type,headers,checksum) / error surfaces",
+        "E1: Dearmor<BufReader(cap) over scripted source> for 5 header layouts (none, two, repeated / empty / colon-carrying values, forty lines, one long value) with and without leading text in front of the armor, separator line empty / blank / TAB / mixed: uniform 1/2/3/7-byte sources, all executions with <=1 (thorough: <=2 for short inputs) deviation from the default answer incl. an injected source error at every call, oracle: same (data,type,headers,checksum) / error surfaces",
         sc.into_par_iter(),
         run_sched,
     );
